@@ -2,8 +2,8 @@ package main
 
 func init() {
 	props["C07"] = &PropSpec{
-		Rules:      []string{"switch/shift-siblings"},
-		Decides:    "that every shift implementation (the four helpers shared by Int8..UInt64/UInt and the Int shifts) accepts the same set of operand representations, so no shift rejects with a TypeError an AnyInt operand its siblings accept.",
+		Rules:      []string{"switch/shift-siblings", "shift/unsigned-count"},
+		Decides:    "that no shift implementation converts a 64-bit unsigned shift count to a signed type without a range check (a count of 2^63 or more would turn negative and reverse the shift); that every shift implementation (the four helpers shared by Int8..UInt64/UInt and the Int shifts) accepts the same set of operand representations, so no shift rejects with a TypeError an AnyInt operand its siblings accept.",
 		NotCovered: "the modular and IEEE-754 results themselves (delegated to Go's sized arithmetic; they depend on operand values), overflow at conversion boundaries.",
 	}
 	props["C08"] = &PropSpec{
@@ -17,8 +17,8 @@ func init() {
 		NotCovered: "that the concrete text each printer emits is what the parser accepts for that node; type and pattern precedence tables; associativity choices that only produce redundant parentheses.",
 	}
 	props["C31"] = &PropSpec{
-		Rules:      []string{"cover/astsplice", "cover/asttraverse", "effect/selfrec"},
-		Decides:    "that macro expansion cannot lose part of a quoted tree: every node's splice carries every field over and every node's traverse visits every field that can hold a sub-tree; no node method is an unconditional self call.",
+		Rules:      []string{"cover/astsplice", "cover/asttraverse", "macro/boundary-scope", "effect/selfrec"},
+		Decides:    "that the body of every macro boundary is compiled and checked inside a scope of its own on every path, so locals of an expansion cannot land in the caller's scope; that macro expansion cannot lose part of a quoted tree: every node's splice carries every field over and every node's traverse visits every field that can hold a sub-tree; no node method is an unconditional self call.",
 		NotCovered: "capture-freedom under colliding names (scope handling of macro boundaries in checker and compiler); that expansion results are wrapped in macro boundary nodes.",
 	}
 	props["C33"] = &PropSpec{
@@ -42,8 +42,8 @@ func init() {
 		NotCovered: "nothing further is needed for the discipline; bijectivity then follows from the five-line sequential body of Add, which is assumed, not proved. ExistsId's unlocked length read is a reasoned exception.",
 	}
 	props["C11"] = &PropSpec{
-		Rules:      []string{"path/lock-containers"},
-		Decides:    "that the synchronised containers shared by the parallel method-body checker (concurrent.Slice/Map/Set/OrderedMap, SyncDiagnosticList) take their own mutex, in a sufficient mode, around every access to the wrapped collection in every method not explicitly marked unsynchronised.",
+		Rules:      []string{"path/lock-containers", "path/lock-symboltable"},
+		Decides:    "that the symbol interner the parallel workers share decides and inserts in one write-locked section (two workers interning the same new name cannot both insert it, which would make equal symbol literals unequal depending on the schedule); that the synchronised containers shared by the parallel method-body checker (concurrent.Slice/Map/Set/OrderedMap, SyncDiagnosticList) take their own mutex, in a sufficient mode, around every access to the wrapped collection in every method not explicitly marked unsynchronised.",
 		NotCovered: "which other state the parallel region shares and whether it is locked (a whole-program shared-write analysis is not claimed yet); equality of diagnostics and compiled code across schedules (symbol ids, ordering), which is a property of interleavings.",
 	}
 	props["C10"] = &PropSpec{
@@ -86,15 +86,15 @@ func init() {
 		NotCovered: "the probe sequence itself (hash -> start index, wrap-around, termination when the table is full of tombstones), agreement of equality with hashing, and the Go-map-backed native variants.",
 	}
 	props["C24"] = &PropSpec{
-		Rules:      []string{"effect/selfrec"},
-		Decides:    "that no list/tuple operation (nor any other function of the module) is an unconditional self call with unchanged arguments, which would abort the interpreter with an unrecoverable stack overflow.",
+		Rules:      []string{"alias/append-fresh", "effect/selfrec"},
+		Decides:    "that no list or tuple operation builds a new value by appending onto the storage of an existing one without storing the result back (which would make two lists share a backing array); that no list/tuple operation (nor any other function of the module) is an unconditional self call with unchanged arguments, which would abort the interpreter with an unrecoverable stack overflow.",
 		NotCovered: "sequence semantics (results of index, slice, insert, remove over operation histories); bounds handling of individual operations.",
 	}
 }
 
 func init() {
 	props["C03"] = &PropSpec{
-		Rules:      []string{"path/nilpair", "front/parse-gate", "switch/panic-default", "effect/selfrec"},
+		Rules:      []string{"path/nilpair", "front/parse-gate", "switch/panic-default", "front/rune-truncation", "effect/selfrec"},
 		Decides:    "four crash mechanisms of the front end: (1) a (pointer, bool) result that is nil when the bool is false is dereferenced only where the bool was tested true, at every call site in the module; (2) a tree that came with syntax diagnostics never reaches the checker (the gate under which the node switches may assume well-formed trees); (3) the checker's pattern dispatcher, whose default arm panics, has a case for every pattern node kind except the reviewed ones that cannot reach it; (4) no front-end function is an unconditional self call (unrecoverable stack overflow).",
 		NotCovered: "termination (a progress measure over run-time token streams), index-out-of-range and nil dereferences whose guard depends on run-time values, the narrow node switches whose operand set is determined by one grammar production (counted in the evidence, not decided), the macro and regex front ends beyond rule 1.",
 	}
